@@ -31,6 +31,26 @@ def handle (α : Type) [Arith α] [Wire α] : List Sexp → Sexp
     | _, _ => app "err" [.atom "decode"]
   | _ => app "err" [.atom "bad-request"]
 
+def ratOf : Ext Rat → Option Rat | .fin q => some q | _ => none
+
+/-- `eval-check E (vals …) reported`: the value `BuilderSolution::eval` reported must be the value the
+LANGUAGE SEMANTICS (`Sem.eval`, exact) gives the expression at those values, wherever that is defined. -/
+def evalCheck (e : Exp (Ext Rat)) (vals : List (Ext Rat)) (reported : Ext Rat) : Sexp :=
+  let ρ : String → Rat := fun s => match s.toNat? with
+    | some i => (ratOf (vals.getD i (.fin 0))).getD 0
+    | none => 0
+  match Sem.eval ρ e, reported with
+  | none, _ => app "ok" [.atom "undefined-in-the-language"]
+  | some v, .fin r =>
+    if Drv.C03.close v r then app "ok" []
+    else app "violation" [.atom "eval-disagrees-with-semantics", Drv.C03.encRat v, Drv.C03.encRat r]
+  | some v, r => app "violation" [.atom "eval-disagrees-with-semantics", Drv.C03.encRat v, .atom (Wire.enc r)]
+
 /-- end-to-end answers of any door are judged by the reference interpreter of C03. -/
-def oracle : List Sexp → Sexp := Drv.C03.oracle
+def oracle : List Sexp → Sexp
+  | [.atom "eval-check", e, .list (.atom "vals" :: vs), r] =>
+    match (Exp.dec e : Option (Exp (Ext Rat))), (optAll (vs.map decNumS) : Option (List (Ext Rat))), (decNumS r : Option (Ext Rat)) with
+    | some e, some vals, some r => evalCheck e vals r
+    | _, _, _ => app "err" [.atom "decode"]
+  | args => Drv.C03.oracle args
 end Rooc.Drv.C16
